@@ -897,6 +897,178 @@ def seq_search(ctx, rebound, rng):
         ctx.violation(key, rep, True, what)
 
 
+# ----------------------------------------------------------------------------------------------- MERCURIUS encounters with a changing particle set
+def enc_reference(sim, clib, mode1_only):
+    """Specified accelerations of the encounter members for the CURRENT particle set, encounter list and active split
+    (index < N_active), in the heliocentric frame of the encounter step.  mode1_only: the (1-L)-weighted encounter part;
+    else: what mode 0 + mode 1 must add up to = star term + full pair force inside the list + L-weighted pairs with non-members."""
+    rim = sim.ri_mercurius
+    ps = sim.particles
+    N = sim.N
+    G = sim.G
+    e2 = sim.softening ** 2
+    Nact = N if sim.N_active == -1 else sim.N_active
+    members = [rim._encounter_map[k] for k in range(rim._encounter_N)]
+    ref = {}
+    mags = {}
+
+    def L(d, mi, mj):
+        return clib.reb_integrator_mercurius_L_mercury(ctypes.byref(sim), ctypes.c_double(d), ctypes.c_double(max(rim._dcrit[mi], rim._dcrit[mj])))
+
+    for mi in members[1:]:
+        pi = ps[mi]
+        d = math.sqrt(pi.x ** 2 + pi.y ** 2 + pi.z ** 2 + e2)
+        pre = -G * ps[0].m / d ** 3
+        a = [pre * pi.x, pre * pi.y, pre * pi.z]
+        mag = abs(pre) * (abs(pi.x) + abs(pi.y) + abs(pi.z))
+        for mj in range(1, N):
+            if mj == mi:
+                continue
+            inside = mj in members
+            if mode1_only and not inside:
+                continue
+            if mj < Nact:
+                acts = True
+            else:
+                acts = (mi < Nact) and sim.testparticle_type == 1
+            if not acts:
+                continue
+            pj = ps[mj]
+            dx, dy, dz = pi.x - pj.x, pi.y - pj.y, pi.z - pj.z
+            d = math.sqrt(dx * dx + dy * dy + dz * dz + e2)
+            Lv = L(d, mi, mj)
+            w = (1. - Lv) if mode1_only else (1. if inside else Lv)
+            pre = -G * pj.m * w / d ** 3
+            a[0] += pre * dx; a[1] += pre * dy; a[2] += pre * dz
+            mag += abs(pre) * (abs(dx) + abs(dy) + abs(dz))
+        ref[mi] = a
+        mags[mi] = mag
+    return members, ref, mags
+
+
+def enc_scenario(rebound, sc, log):
+    """one MERCURIUS step with an encounter (two planets 0.1 apart, a test particle next to them), an event inside the encounter step"""
+    clib = rebound.clibrebound
+    clib.reb_integrator_mercurius_L_mercury.restype = ctypes.c_double
+    sim = rebound.Simulation()
+    sim.add(m=1., r=0.005)
+    sim.add(m=sc["mp"][0], r=1e-3, x=1.00, vy=1.)
+    sim.add(m=sc["mp"][1], r=1e-4, x=1.10, vy=math.sqrt(1. / 1.10))
+    if sc["far_active"]:
+        sim.add(m=3e-4, r=1e-4, x=-3.0, vy=-math.sqrt(1. / 3.0))
+    nact = sim.N
+    sim.add(m=sc["mtp"], r=4e-3 if sc["event"] == "merge" else 1e-5, x=1.00, y=-0.006 if sc["event"] == "merge" else -0.03, vy=1.20)   # near planet 1
+    sim.add(m=sc["mtp"], r=1e-5, x=1.12, y=0.02, vy=0.93)      # near planet 2
+    if sc["far_tp"]:
+        sim.add(m=sc["mtp"], r=1e-5, x=0., y=2.2, vx=-math.sqrt(1. / 2.2))
+    sim.N_active = nact
+    sim.testparticle_type = sc["tp"]
+    sim.softening = sc["soft"]
+    sim.integrator = "mercurius"
+    sim.dt = 0.01
+    if sc["event"] == "merge":
+        sim.collision = "direct"
+        sim.collision_resolve = "merge"
+    state = {"calls": 0, "done": False}
+
+    def cb(simp):
+        s = simp.contents
+        rim = s.ri_mercurius
+        if rim.mode != 1:
+            return
+        state["calls"] += 1
+        if not state["done"] and state["calls"] == sc["at"] and sc["event"] not in ("merge", "none"):
+            state["done"] = True
+            ev = sc["event"]
+            Na = s.N_active
+            if ev == "remove_tp_member":
+                s.remove(index=Na)                 # first test particle (next to planet 1)
+            elif ev == "remove_tp_member2":
+                s.remove(index=Na + 1)
+            elif ev == "remove_active_member":
+                s.remove(index=2)
+            elif ev == "remove_far_active":
+                s.remove(index=3)
+            elif ev == "remove_far_tp":
+                s.remove(index=s.N - 1)
+            elif ev == "add_tp":
+                s.add(m=sc["mtp"], r=1e-5, x=s.particles[1].x + 0.02, y=s.particles[1].y + 0.01, vx=s.particles[1].vx, vy=s.particles[1].vy)
+        N = s.N
+        Nact = N if s.N_active == -1 else s.N_active
+        members = [rim._encounter_map[k] for k in range(rim._encounter_N)]
+        rec = {"t": s.t, "N": N, "N_active": s.N_active, "members": members, "encounter_N_active": rim._encounter_N_active, "call": state["calls"]}
+        if any(not (0 <= m < N) for m in members) or len(set(members)) != len(members):
+            rec["bad"] = "map"; log.append(rec); return
+        cnt = sum(1 for m in members if m < Nact)
+        if cnt != rim._encounter_N_active:
+            rec["bad"] = "count"; rec["expected_encounter_N_active"] = cnt
+        clib.reb_simulation_update_acceleration(ctypes.byref(s))
+        a1 = [(s.particles[i].ax, s.particles[i].ay, s.particles[i].az) for i in range(N)]
+        _, ref1, mag1 = enc_reference(s, clib, True)
+        rim.mode = 0
+        clib.reb_simulation_update_acceleration(ctypes.byref(s))
+        a0 = [(s.particles[i].ax, s.particles[i].ay, s.particles[i].az) for i in range(N)]
+        rim.mode = 1
+        clib.reb_simulation_update_acceleration(ctypes.byref(s))
+        _, refs, mags = enc_reference(s, clib, False)
+        w1 = ws = 0.0
+        for mi in members[1:]:
+            e1 = max(abs(a1[mi][k] - ref1[mi][k]) for k in range(3)) / (mag1[mi] or 1.0)
+            es = max(abs(a0[mi][k] + a1[mi][k] - refs[mi][k]) for k in range(3)) / (mags[mi] or 1.0)
+            w1 = max(w1, e1); ws = max(ws, es)
+        rec["err_mode1"] = w1; rec["err_sum"] = ws
+        if "bad" not in rec and (w1 > 1e-11 or ws > 1e-11 or w1 != w1 or ws != ws):
+            rec["bad"] = "force"
+        log.append(rec)
+
+    sim.post_timestep_modifications = cb
+    for _ in range(sc.get("steps", 1)):
+        sim.step()
+    return sim.N
+
+
+def enc_search(ctx, rebound, rng):
+    import warnings
+    events = ["none", "merge", "remove_tp_member", "remove_tp_member2", "remove_active_member", "remove_far_active", "remove_far_tp", "add_tp"]
+    found = {}
+    nenc = 0
+    with warnings.catch_warnings():
+        warnings.simplefilter("ignore")
+        for ev in events:
+            for tp in (0, 1):
+                for rep in range(ctx.scale(1, 4)):
+                    sc = {"event": ev, "tp": tp, "mp": [10 ** rng.uniform(-3.3, -2.7), 10 ** rng.uniform(-3.3, -2.7)],
+                          "mtp": 0.0 if (tp == 0 and rng.random() < 0.5) else 10 ** rng.uniform(-9, -7),
+                          "far_active": ev == "remove_far_active" or rng.random() < 0.5, "far_tp": ev == "remove_far_tp" or rng.random() < 0.5,
+                          "soft": rng.choice([0.0, 1e-4]), "at": rng.randint(2, 6), "steps": 1}
+                    if ev == "remove_far_active":
+                        sc["far_active"] = True
+                    log = []
+                    try:
+                        enc_scenario(rebound, sc, log)
+                    except (RuntimeError, ValueError):
+                        continue
+                    ctx.evaluations += len(log)
+                    if log:
+                        nenc += 1
+                        ctx.nontrivial.add(("encounter", ev, tp, len(set(r["N"] for r in log)) > 1))
+                    for r in log:
+                        if "bad" in r:
+                            key = {"count": "encounter:mercurius:encounter_N_active", "map": "encounter:mercurius:encounter_map",
+                                   "force": "encounter:mercurius:force"}[r["bad"]]
+                            key += ":" + ev
+                            found.setdefault(key, ({"scenario": sc, "record": r},
+                                "MERCURIUS encounter step, event %s at sub-step %d: %s" % (ev, sc["at"],
+                                 {"count": "encounter_N_active != number of mapped indices < N_active",
+                                  "map": "encounter_map holds an out-of-range or repeated index",
+                                  "force": "mode-1 force / mode-0 + mode-1 force differs from the specified sum for the current particle set and active split"}[r["bad"]])))
+                            break
+    ctx.extra["encounter_scenarios_with_substeps"] = nenc
+    ctx.obligation("searcher:MERCURIUS encounter scenarios reached the encounter step", nenc >= 8, "only %d scenarios produced encounter sub-steps" % nenc)
+    for key, (rep, what) in sorted(found.items()):
+        ctx.violation(key, rep, True, what)
+
+
 # ----------------------------------------------------------------------------------------------- main
 def run(ctx):
     libdir = ctx.lib(tag="c02")   # own build directory: concurrent checks with another VERIF_REPO purge lib-default-*
@@ -1020,6 +1192,7 @@ def run(ctx):
     # ---- searcher
     searcher(ctx, rebound, rng)
     seq_search(ctx, rebound, rng)
+    enc_search(ctx, rebound, rng)
     ctx.rule = ("correspondence: every (routine, N_active in {-1,0..N}, testparticle_type, gravity_ignore_terms, ghost/boundary/root-box "
                 "variant) combination for N<=5 and a thinned set for larger N (to 40 quick / 200 thorough), masses incl. 0 and ratios "
                 "1e-12, random G/softening/positions incl. close pairs; a case is distinct by (routine,N,N_active,type,ign,ghost); "
